@@ -73,6 +73,8 @@ def p2_parallel_doe(ctx):
     n_cb = t.randint(0, 2, "n_callbacks")
     faults_on = t.flag(0.55, "faults_on")
     wait = t.flag(0.1, "wait_time_between_samples")
+    # (on the grids of CustomDOE and full factorial designs the normalisation round trip over [-2, 2] is exact)
+    normalize = algo in (0, 1) and t.flag(0.3, "normalize_design_space")
     settings = {}
     if algo == 0:
         samples = []
@@ -101,7 +103,7 @@ def p2_parallel_doe(ctx):
             elif r == 2 and with_g:
                 fail_g.add(k)
     cfg = {"workload": "P2-parallel-doe", "algo": settings["algo_name"], "dim": dim, "n_samples": len(gen_keys),
-           "n_workers": n_workers, "eval_jac": eval_jac, "with_g": with_g, "with_obs": with_obs, "n_callbacks": n_cb,
+           "n_workers": n_workers, "eval_jac": eval_jac, "normalize": bool(normalize), "with_g": with_g, "with_obs": with_obs, "n_callbacks": n_cb,
            "samples": [list(k) for k in gen_keys], "fail_objective": sorted(fail_f), "fail_constraint": sorted(fail_g)}
     ctx.event("cfg", canon(cfg))
     sig = "P2"
@@ -113,6 +115,8 @@ def p2_parallel_doe(ctx):
         cb_logs = [[] for _ in range(n_cb)]
         cbs = [(lambda i, data, log=log: log.append((i, canon(data[0]), canon(data[1])))) for log in cb_logs]
         kw = dict(settings)
+        if normalize:
+            kw["normalize_design_space"] = True
         if wait and n_proc > 1:
             kw["wait_time_between_samples"] = 0.25
         if n_proc == 1:
